@@ -8,6 +8,7 @@ package main
 
 import (
 	"fmt"
+	"math"
 	"runtime"
 	"sort"
 	"strings"
@@ -94,6 +95,7 @@ type opSpec struct {
 	OffUs   int64  `json:"off_us,omitempty"`
 	Gated   bool   `json:"gated,omitempty"`
 	PauseUs int    `json:"pause_us,omitempty"`
+	When    string `json:"when,omitempty"` // special scheduled instant (see instant); "" = now + OffUs
 }
 
 type spec struct {
@@ -105,7 +107,8 @@ type spec struct {
 	Far     bool   `json:"far,omitempty"`   // scripted: pending elements are scheduled one hour ahead and flushed by Shutdown(IgnorePendingTimeouts)
 	Probe   bool   `json:"probe,omitempty"` // scripted: scenario-specific extra step
 	Blocker bool   `json:"blocker,omitempty"`
-	Rel     int    `json:"rel,omitempty"` // scripted bounded-queue scenarios: new element earlier (-1), equal (0), later (+1) than the pending ones
+	Perm    int    `json:"perm,omitempty"` // scripted far-mix scenarios: seed of the order in which the elements are added
+	Rel     int    `json:"rel,omitempty"`  // scripted bounded-queue scenarios: new element earlier (-1), equal (0), later (+1) than the pending ones
 
 	Clients      [][]opSpec `json:"clients,omitempty"`
 	NItems       int        `json:"n_items,omitempty"`
@@ -115,20 +118,23 @@ type spec struct {
 }
 
 func (s spec) key() string {
-	return fmt.Sprintf("%s|%s|w%d|m%d|f%d|far%v|p%v|b%v|r%d|c%d|sm%d", s.Script, s.Kind, s.Workers, s.MaxSize, s.Flags, s.Far, s.Probe, s.Blocker, s.Rel, len(s.Clients), s.ShutdownMode)
+	return fmt.Sprintf("%s|%s|w%d|m%d|f%d|far%v|p%v|b%v|r%d|c%d|sm%d", s.Script, s.Kind, s.Workers, s.MaxSize, s.Flags, s.Far, s.Probe, s.Blocker, s.Rel*10+s.Perm, len(s.Clients), s.ShutdownMode)
 }
 
 // ---------------------------------------------------------------- recorded history
 
 type item struct {
-	idx   int
-	id    int // TaskExecutor identifier (0 for the other kinds)
-	offUs int64
-	gated bool
-	gate  chan struct{}
-	once  sync.Once
-	sched time.Time // scheduled instant (monotonic reading inside)
-	abs   time.Time // scripted scenarios: absolute scheduled instant (overrides now+offUs) to produce equal/earlier/later keys
+	idx    int
+	id     int // TaskExecutor identifier (0 for the other kinds)
+	offUs  int64
+	gated  bool
+	gate   chan struct{}
+	once   sync.Once
+	sched  time.Time // scheduled instant (monotonic reading inside)
+	abs    time.Time // scripted scenarios: absolute scheduled instant (overrides now+offUs) to produce equal/earlier/later keys
+	hasAbs bool
+	when   string // special instant class (far future / far past / representation of an ordinary instant)
+	far    int    // +1: scheduled more than an hour after the Add (not due within any run), -1: more than an hour before, 0: ordinary
 
 	schedCall, schedRet atomic.Uint64
 	accepted            atomic.Bool
@@ -200,10 +206,16 @@ type run struct {
 	notes      []string
 	windowHeld bool
 	blind      string // non-empty: workers not identifiable, run is undecidable
+
+	flags       int       // flags actually given to Shutdown (sp.Flags, or forced IgnorePendingTimeouts after a stall, see waitDue)
+	flushForced bool      // the due elements did not come out while far-future ones were pending: flushed to decide by delivery order
+	endAt       time.Time // instant at which structural quiescence was established
+	together    []*item   // elements that were in the heap together (all workers held at gates, none of them started)
+	holders     int       // workers still holding a (far-future) element inside Poll at quiescence
 }
 
 func newRun(sp spec) *run {
-	r := &run{sp: sp, base: map[uint64]bool{}, cnt: map[string]int{}, patterns: map[string]bool{}}
+	r := &run{sp: sp, flags: sp.Flags, base: map[uint64]bool{}, cnt: map[string]int{}, patterns: map[string]bool{}}
 	for _, g := range gdump.Snapshot() {
 		r.base[g.ID] = true
 	}
@@ -345,11 +357,53 @@ func (r *run) openAll() {
 	}
 }
 
+// instant builds the scheduled instant of an element: ordinary (now + offset), far in the future (around the year-2262 end
+// of the int64-nanosecond range, year 3000, year 9999), far in the past (before the 1677 start of that range, year 1, the
+// zero Time), or the ordinary instant in another representation (UTC, fixed zone, without monotonic reading).
+func instant(when string, now time.Time, offUs int64) time.Time {
+	ord := now.Add(time.Duration(offUs) * time.Microsecond)
+	switch when {
+	case "y2262-1s":
+		return time.Unix(0, math.MaxInt64).Add(-time.Second)
+	case "y2262+1s":
+		return time.Unix(0, math.MaxInt64).Add(time.Second)
+	case "y3000":
+		return time.Date(3000, 1, 1, 0, 0, 0, 0, time.UTC)
+	case "y9999":
+		return time.Date(9999, 12, 31, 23, 59, 59, 0, time.UTC)
+	case "y1677":
+		return time.Unix(0, math.MinInt64).Add(-time.Second)
+	case "y1":
+		return time.Date(1, 1, 1, 0, 0, 1, 0, time.UTC)
+	case "zero":
+		return time.Time{}
+	case "utc":
+		return ord.UTC()
+	case "zone":
+		return ord.In(time.FixedZone("c18", 5*3600+1800))
+	case "nomono":
+		return ord.Round(0)
+	}
+	return ord
+}
+
+var farFutureWhens = []string{"y2262-1s", "y2262+1s", "y3000", "y9999"}
+var farPastWhens = []string{"y1677", "y1", "zero"}
+var reprWhens = []string{"utc", "zone", "nomono"}
+
 // schedule performs Add / ExecuteAt for the element.
 func (r *run) schedule(it *item) {
-	it.sched = time.Now().Add(time.Duration(it.offUs) * time.Microsecond)
-	if !it.abs.IsZero() {
+	now := time.Now()
+	if it.hasAbs || !it.abs.IsZero() {
 		it.sched = it.abs
+	} else {
+		it.sched = instant(it.when, now, it.offUs)
+	}
+	switch {
+	case it.sched.After(now.Add(time.Hour)):
+		it.far = 1
+	case it.sched.Before(now.Add(-time.Hour)):
+		it.far = -1
 	}
 	it.schedCall.Store(tick())
 	func() {
@@ -431,7 +485,7 @@ func (r *run) shutdownAsync() {
 }
 
 func (r *run) doShutdown(started chan struct{}) {
-	fl := timedFlags(r.sp.Flags)
+	fl := timedFlags(r.flags)
 	r.shCall.Store(tick())
 	close(started)
 	func() {
@@ -631,14 +685,96 @@ func (r *run) finish() {
 	var o obs
 	for i := 0; ; i++ {
 		o = r.observe()
-		if o.clients == 0 && o.shutdown != 2 && o.allIdle() {
+		if o.clients == 0 && o.shutdown != 2 && (o.allIdle() || r.onlyFarFutureHeld(o)) {
 			break
 		}
 		pace(i)
 	}
-	r.hang = o.shutdown == 1
+	r.hang = o.shutdown == 1 && o.allIdle()
+	r.holders = o.pollSelect
+	r.endAt = time.Now()
 	r.sizeAtEnd = r.size()
 	r.evaluate()
+}
+
+// onlyFarFutureHeld: every worker is parked inside Poll, some of them in select - holding an element and waiting for its
+// due time - and by the log no element that could be due within the run can be what they hold: every accepted element that
+// has not started and was not cancelled / replaced is scheduled more than an hour ahead. Such workers are "holding", not
+// idle, and stay so for centuries; nothing else can be delivered, so the run is over. The far-future elements are not
+// waited for. (A held element that is due soon keeps the loop waiting: its delivery is decidable.)
+func (r *run) onlyFarFutureHeld(o obs) bool {
+	if o.pollSelect == 0 || o.parked != o.nWorkers || o.pollCond+o.pollSelect != o.nWorkers {
+		return false
+	}
+	horizon := time.Now().Add(time.Hour)
+	r.mu.Lock()
+	cancels := append([]cancelRec(nil), r.cancels...)
+	r.mu.Unlock()
+	its := r.allItems()
+	for _, it := range its {
+		if it == nil || it.schedRet.Load() == 0 || !it.accepted.Load() || it.starts.Load() > 0 || it.sched.After(horizon) {
+			continue
+		}
+		gone := false
+		for _, c := range cancels {
+			if !c.ByID && c.Item == it.idx || c.ByID && c.Result && c.ID == it.id && r.sp.Kind == kTask && c.Ret > it.schedCall.Load() {
+				gone = true
+			}
+		}
+		if r.sp.Kind == kTask {
+			for _, k2 := range its {
+				if k2 != nil && k2 != it && k2.id == it.id && k2.schedRet.Load() > it.schedCall.Load() {
+					gone = true // replaced
+				}
+			}
+		}
+		if !gone {
+			return false // an ordinary element may be what a worker holds: wait for it
+		}
+	}
+	return true
+}
+
+// waitDue is used by scenarios that mix far-future elements with due ones: it waits until every element that is due
+// (not far-future, not cancelled) has started. If instead every worker sits parked inside Poll in consecutive snapshots
+// while due elements are missing, it returns true ("stalled") WITHOUT a verdict - which element a parked worker holds is
+// not observable, and an expired timer may simply not have fired yet. The caller then flushes with IgnorePendingTimeouts,
+// and the verdict comes from the order in which a single worker hands out elements that were in the heap together.
+func (r *run) waitDue() (stalled bool) {
+	last, same := "", 0
+	for i := 0; ; i++ {
+		missing := 0
+		for _, it := range r.allItems() {
+			if it != nil && it.accepted.Load() && it.far <= 0 && it.starts.Load() == 0 && it.cancelFn.Load() != nil && !r.hasElemCancel(it.idx) {
+				missing++
+			}
+		}
+		if missing == 0 {
+			return false
+		}
+		o := r.observe()
+		key := fmt.Sprintf("%s/%d", o.sig, missing)
+		if o.allParked() && o.inCallback == 0 && key == last {
+			if same++; same >= 3 {
+				return true
+			}
+		} else {
+			same = 0
+		}
+		last = key
+		pace(i + 10)
+	}
+}
+
+func (r *run) hasElemCancel(idx int) bool {
+	r.mu.Lock()
+	defer r.mu.Unlock()
+	for _, c := range r.cancels {
+		if !c.ByID && c.Item == idx {
+			return true
+		}
+	}
+	return false
 }
 
 // leaked returns the goroutines of this run that stay parked for ever (reported to the parent for dump classification).
@@ -667,8 +803,8 @@ func (r *run) evaluate() {
 	kind := r.sp.Kind
 	its := r.allItems()
 	shCall, shRet := r.shCall.Load(), r.shRet.Load()
-	ignoreGiven := r.sp.Flags&fIgnore != 0 && shCall != 0
-	cancelGiven := r.sp.Flags&fCancel != 0 && shCall != 0
+	ignoreGiven := r.flags&fIgnore != 0 && shCall != 0
+	cancelGiven := r.flags&fCancel != 0 && shCall != 0
 	elemCancels := map[int][]cancelRec{}
 	idCancels := map[int][]cancelRec{}
 	for _, c := range r.cancels {
@@ -724,16 +860,24 @@ func (r *run) evaluate() {
 		}
 		if n >= 1 {
 			r.cnt["deliveries"]++
-			if it.offUs > 0 {
+			if it.far > 0 || it.far == 0 && it.offUs > 0 {
 				r.cnt["future_elements_delivered"]++
+			}
+			switch {
+			case it.far > 0:
+				r.cnt["far_future_elements_delivered_by_ignore_flush"]++
+			case it.far < 0:
+				r.cnt["far_past_elements_delivered"]++
+			case it.when != "":
+				r.cnt["other_representation_elements_delivered"]++
 			}
 			if e := it.earlyNs.Load(); e > 0 {
 				if ignoreGiven && shCall < it.startTick.Load() {
 					r.cnt["early_allowed_by_ignore_flag"]++
 				} else {
-					r.violate(kind+"/early-delivery", "element %d scheduled %dus ahead was delivered %dns before its scheduled instant (Shutdown flags %s, shutdown call tick %d, delivery tick %d)", it.idx, it.offUs, e, flagNames(r.sp.Flags), shCall, it.startTick.Load())
+					r.violate(kind+"/early-delivery", "element %d scheduled %dus ahead was delivered %dns before its scheduled instant (Shutdown flags %s, shutdown call tick %d, delivery tick %d)", it.idx, it.offUs, e, flagNames(r.flags), shCall, it.startTick.Load())
 				}
-			} else if it.offUs > 0 {
+			} else if it.far > 0 || it.far == 0 && it.offUs > 0 {
 				r.cnt["not_early_confirmed"]++
 			}
 		}
@@ -842,6 +986,48 @@ func (r *run) evaluate() {
 		r.cnt["adds_exceeding_size_bound_model"] += allowedDrops
 		allowedDrops = min(allowedDrops, looseDrops)
 	}
+	// "Scheduled after the end of the run": an undelivered element is excused as not yet due only if (a) its scheduled
+	// instant is later than the instant at which quiescence was established, (b) the run ended with workers still holding
+	// elements inside Poll (so the element will be handed out when its time comes), and (c) it can physically be there:
+	// at most (workers holding an element + Size()) elements are excused this way.
+	if r.holders > 0 {
+		present := r.holders + r.sizeAtEnd
+		sort.SliceStable(unexcused, func(i, j int) bool { return unexcused[i].far > unexcused[j].far })
+		var rest []*item
+		for _, it := range unexcused {
+			if present > 0 && it.sched.After(r.endAt) {
+				present--
+				r.cnt["not_yet_due_at_end_excused"]++
+				continue
+			}
+			rest = append(rest, it)
+		}
+		unexcused = rest
+	}
+	// Heap order on a single worker: elements that sat in the heap together (all workers held at gates, none started) are
+	// popped in order of their scheduled instants, and one worker delivers what it pops before it pops again. So if b was
+	// delivered, every a with an earlier instant (not cancelled) was delivered before it.
+	if r.sp.Workers == 1 && r.sp.MaxSize == 0 && r.flags&fCancel == 0 {
+		for _, a := range r.together {
+			if len(elemCancels[a.idx]) > 0 || !a.accepted.Load() {
+				continue
+			}
+			for _, b := range r.together {
+				if b.starts.Load() == 0 || !a.sched.Before(b.sched) {
+					continue
+				}
+				r.cnt["heap_order_pairs_checked"]++
+				if a.starts.Load() == 0 || a.startTick.Load() > b.startTick.Load() {
+					r.violate(kind+"/heap-order", "single worker; elements %d (%s, offset %dus) and %d (%s, offset %dus) were in the heap together and the first is scheduled earlier, but %d was delivered at tick %d and %d %s (flush forced after a stall: %v)", a.idx, whenName(a), a.offUs, b.idx, whenName(b), b.offUs, b.idx, b.startTick.Load(), a.idx, map[bool]string{true: "never", false: fmt.Sprintf("only at tick %d", a.startTick.Load())}[a.starts.Load() == 0], r.flushForced)
+				}
+			}
+		}
+	}
+	for _, it := range sched {
+		if it.far > 0 {
+			r.cnt["far_future_elements_scheduled"]++
+		}
+	}
 	overl := func(it *item) bool {
 		return shCall != 0 && it.schedRet.Load() > shCall && (shRet == 0 || it.schedCall.Load() < shRet)
 	}
@@ -860,7 +1046,7 @@ func (r *run) evaluate() {
 		r.violate(kind+"/lost-element/dropped-below-size-bound", "%d accepted element(s) (first: %d, identifier %d, offset %dus, scheduled tick %d..%d) were neither cancelled, replaced nor dropped by a flag and were never delivered at structural quiescence, but the size bound %d was exceeded by at most %d Add/ExecuteAt call(s) (pending elements per the model: accepted, not delivered, not cancelled, not replaced; a re-schedule of an identifier does not add one), so at most %d may have been dropped (Size()=%d)", len(unexcused), it.idx, it.id, it.offUs, it.schedCall.Load(), it.schedRet.Load(), r.sp.MaxSize, allowedDrops, allowedDrops, r.sizeAtEnd)
 	case len(lostPending) > allowedDrops:
 		it := lostPending[0]
-		r.violate(kind+"/lost-element/pending", "%d accepted element(s) (first: %d, offset %dus, scheduled tick %d..%d) were neither cancelled nor dropped by a flag, at most %d may be dropped by the size bound %d, and none of them was delivered at structural quiescence (Size()=%d, Shutdown flags %s)", len(unexcused), it.idx, it.offUs, it.schedCall.Load(), it.schedRet.Load(), allowedDrops, r.sp.MaxSize, r.sizeAtEnd, flagNames(r.sp.Flags))
+		r.violate(kind+"/lost-element/pending", "%d accepted element(s) (first: %d, offset %dus, scheduled tick %d..%d) were neither cancelled nor dropped by a flag, at most %d may be dropped by the size bound %d, and none of them was delivered at structural quiescence (Size()=%d, Shutdown flags %s)", len(unexcused), it.idx, it.offUs, it.schedCall.Load(), it.schedRet.Load(), allowedDrops, r.sp.MaxSize, r.sizeAtEnd, flagNames(r.flags))
 	case len(unexcused) > allowedDrops:
 		it := lostRace[0]
 		r.violate("queue.Add/accepted-during-shutdown-lost", "kind %s, element %d: Add/ExecuteAt (ticks %d..%d) overlapped Shutdown (ticks %d..%d), returned an element, and the element was never delivered (Size()=%d at quiescence)", kind, it.idx, it.schedCall.Load(), it.schedRet.Load(), shCall, shRet, r.sizeAtEnd)
@@ -963,6 +1149,13 @@ func (r *run) evaluate() {
 	}
 }
 
+func whenName(it *item) string {
+	if it.when == "" {
+		return "ordinary"
+	}
+	return it.when
+}
+
 // ---------------------------------------------------------------- history dump (replay file / samples)
 
 type itemRec struct {
@@ -979,6 +1172,8 @@ type itemRec struct {
 	DoneTick  uint64 `json:"done_tick,omitempty"`
 	EarlyNs   int64  `json:"early_ns,omitempty"`
 	LB        uint64 `json:"undecided_at,omitempty"`
+	When      string `json:"when,omitempty"`
+	Far       int    `json:"far,omitempty"`
 }
 
 type history struct {
@@ -991,10 +1186,12 @@ type history struct {
 	SizeAtEnd    int         `json:"size_at_end"`
 	Patterns     []string    `json:"patterns,omitempty"`
 	Race         bool        `json:"race_build,omitempty"`
+	FlushForced  bool        `json:"flush_forced_after_stall,omitempty"`
+	Holders      int         `json:"workers_holding_far_future_at_end,omitempty"`
 }
 
 func (r *run) history() history {
-	h := history{Spec: r.sp, Cancels: r.cancels, ShutdownCall: r.shCall.Load(), ShutdownRet: r.shRet.Load(), ShutdownHang: r.hang, SizeAtEnd: r.sizeAtEnd, Race: raceBuild}
+	h := history{Spec: r.sp, Cancels: r.cancels, ShutdownCall: r.shCall.Load(), ShutdownRet: r.shRet.Load(), ShutdownHang: r.hang, SizeAtEnd: r.sizeAtEnd, Race: raceBuild, FlushForced: r.flushForced, Holders: r.holders}
 	for _, it := range r.allItems() {
 		if it == nil || it.schedCall.Load() == 0 {
 			continue
@@ -1004,7 +1201,7 @@ func (r *run) history() history {
 			e = 0
 		}
 		h.Items = append(h.Items, itemRec{it.idx, it.id, it.offUs, it.gated, it.schedCall.Load(), it.schedRet.Load(), it.accepted.Load(), int(it.starts.Load()),
-			it.startTick.Load(), it.endTick.Load(), it.doneTick.Load(), e, it.lb()})
+			it.startTick.Load(), it.endTick.Load(), it.doneTick.Load(), e, it.lb(), it.when, it.far})
 	}
 	for p := range r.patterns {
 		h.Patterns = append(h.Patterns, p)
